@@ -398,3 +398,64 @@ def plan_C09(tier, seed):
         "jobs": jobs, "primary_jobs": ["lines-chk"], "eval_counters": ["items_observed"], "floors": fl,
         "assumptions": ["the AIGER comment section is 'the rest of the file' and is not a streamed item"],
     }
+
+
+def plan_C06(tier, seed):
+    n = q(tier, 600_000, 30_000_000)
+    jobs = [
+        Job("ref-chk", "chk", "c06", n, {}),
+        Job("ref-rel", "rel", "c06", n, {}),
+    ]
+    fl = dict(PARSER_FLOORS)
+    fl.update({"parser:log": 100, "accepted_and_confirmed": q(tier, 1_000_000, 50_000_000), "items_compared": 5_000_000,
+               "limit_aimed_accepted": 100_000, "limit_aimed_rejected_by_both": 100_000,
+               "lit:i8": 1000, "lit:i16": 1000, "lit:i32": 1000, "lit:i64": 1000, "lit:isize": 1000,
+               "lit:u8": 1000, "lit:u16": 1000, "lit:u32": 1000, "lit:u64": 1000, "lit:usize": 1000,
+               "distinct_nontrivial": q(tier, 300_000, 10_000_000)})
+    return {
+        "level": "exploration",
+        "rule": "every input is read twice: by the real parser (one-shot = SWAR scanner paths, and 1-byte reads with chunk 1 = "
+                "byte-wise paths) and by an independent lexical reference (harness/src/refread.rs: line/blank tokenizer, "
+                "arbitrary-precision decimal strings, byte-wise varint decoding, no shared code, no machine integers in range "
+                "decisions) that also checks every declared limit: var_count <= MAX_DIMACS(L); unless ignore_header: |literal| "
+                "<= var_count, exactly clause_count clauses, group <= group_count (0 = unspecified); always |literal| <= "
+                "MAX_DIMACS; solver-log values; AIGER: M <= (MAX_CODE-1)/2, I+L+A <= M, literals <= 2M+1, defining literals "
+                "even and non-zero, section sizes = header counts, latch reset in {0,1,own}, deltas <= reference code, symbol "
+                "index < section count; BTOR2: ids/widths/indices exact in u64, ids and widths non-zero. Whenever the parser "
+                "ACCEPTS, the reference must accept too with identical items. Half of the inputs come from the shared corpus, "
+                "half from a limit-aimed generator (one number token of a well-formed document moved to limit-1 / limit / "
+                "limit+1 / 10*limit / +-1 / 2^64, both signs, 0..30 leading zeros). Non-trivial = accepted input with >= 2 items, "
+                "or a limit-aimed input rejected by both; distinct by hash of (bytes, parser config).",
+        "jobs": jobs, "primary_jobs": ["ref-chk"], "eval_counters": ["parses"], "floors": fl,
+        "assumptions": ["the reference reader is independent code but written by the same author as the generators"],
+    }
+
+
+def plan_C08(tier, seed):
+    nr, ne = q(tier, 400_000, 20_000_000), q(tier, 400_000, 20_000_000)
+    jobs = [
+        Job("range-chk", "chk", "c08", nr, {"mode": "range"}),
+        Job("range-rel", "rel", "c08", nr, {"mode": "range"}),
+        Job("exact-chk", "chk", "c08", ne, {"mode": "exact"}),
+        Job("exact-rel", "rel", "c08", ne, {"mode": "exact"}),
+    ]
+    fl = dict(PARSER_FLOORS)
+    fl.update({"parser:log": 100, "located_errors": q(tier, 1_000_000, 50_000_000), "errors_beyond_line_1": 300_000,
+               "corrupted_documents": q(tier, 600_000, 30_000_000),
+               "distinct_nontrivial": q(tier, 200_000, 5_000_000)})
+    return {
+        "level": "exploration",
+        "rule": "range: every rejected input of the shared corpus (generated / mutated / arbitrary / hostile / repository "
+                "literals; all parsers) under one-shot, 1-byte/chunk-1 and a random small-chunk schedule: 1 <= line <= lines+1 "
+                "and 1 <= column <= length of that line + 1 (binary AIGER: the and-gate section, as decoded by the independent "
+                "reference reader, belongs to the line it starts on). exact: a well-formed generated document with a token "
+                "map is corrupted at exactly one token from the catalogue {garbage token in place of a number; number one above "
+                "its declared or hard limit; number beyond any machine integer; leading zero (AIGER/BTOR2); odd or zero "
+                "defining literal; separator replaced by tab or doubled; unknown BTOR2 keyword; invalid UTF-8 byte inside an "
+                "AIGER symbol name; binary delta larger than its reference} and parsed under the same three schedules, with "
+                "documents long enough that the error lies beyond 2*chunk (location bookkeeping across realigns): the reported "
+                "line must be the token's line and the column must lie on the replacement token. Non-trivial = located error "
+                "beyond line 1; distinct by hash of (bytes, parser config[, location]).",
+        "jobs": jobs, "primary_jobs": ["range-chk", "exact-chk"], "eval_counters": ["located_errors", "parses"], "floors": fl,
+        "assumptions": ["catalogue entries whose error position is ambiguous (deleted newline, tab after a BTOR2 symbol, doubled space before free text) are excluded"],
+    }
